@@ -61,6 +61,11 @@ func scenarioHTTPAPI(t *traceWriter, rng *rand.Rand) {
 		srv := httptest.NewServer(r)
 		base, _ := url.Parse(srv.URL)
 		cl := whttp.NewWitness(base, srv.Client())
+		type validator struct {
+			etag, lastMod string
+			body          []byte
+		}
+		validators := map[string]validator{}
 		probe := func() {
 			states := s.statesOf()
 			faults := ""
@@ -100,16 +105,39 @@ func scenarioHTTPAPI(t *traceWriter, rng *rand.Rand) {
 			for _, id := range ids {
 				// raw GET (redirects followed, as any client would)
 				status, body := 0, []byte{}
+				respETag, respLastMod := "", ""
 				fl := withDrv("g", func() {
 					resp, err := srv.Client().Get(srv.URL + "/witness/v0/logs/" + id + "/checkpoint")
 					if err == nil {
 						body, _ = io.ReadAll(resp.Body)
 						resp.Body.Close()
 						status = resp.StatusCode
+						respETag, respLastMod = resp.Header.Get("ETag"), resp.Header.Get("Last-Modified")
 					}
 				})
 				if status != 200 {
 					body = nil
+				}
+				// a client that revalidates: if the service ever handed out a validator (ETag / Last-Modified) for this ID, ask
+				// again conditionally; "not modified" is only true while the stored bytes are the ones it was handed out with
+				if drvPlan == nil && faults == "" {
+					if v, ok := validators[id]; ok {
+						req, _ := http.NewRequest(http.MethodGet, srv.URL+"/witness/v0/logs/"+id+"/checkpoint", nil)
+						if v.etag != "" {
+							req.Header.Set("If-None-Match", v.etag)
+						}
+						if v.lastMod != "" {
+							req.Header.Set("If-Modified-Since", v.lastMod)
+						}
+						if resp, err := srv.Client().Do(req); err == nil {
+							cb, _ := io.ReadAll(resp.Body)
+							resp.Body.Close()
+							t.line("A %s kind=cget id=%s states=%s learned=%s => status=%d body=%s", s.id, hx([]byte(id)), states, hx(v.body), resp.StatusCode, hx(cb))
+						}
+					}
+					if status == 200 && (respETag != "" || respLastMod != "") {
+						validators[id] = validator{respETag, respLastMod, body}
+					}
 				}
 				if drvPlan != nil {
 					t.line("A %s kind=get id=%s faults=%s states=%s => status=%d body=%s client=skip", s.id, hx([]byte(id)), fl, states, status, hx(body))
